@@ -81,6 +81,13 @@ type mockCfg struct {
 	Level int
 	List  []string
 	Nums  []int
+	// references to the higher scoped sections, in both supported styles (by value and through a pointer), so that
+	// every run resolves the same section for fields of both styles, within one lint and across lints
+	Global  lint.Global                          `json:"-"`
+	GlobalP *lint.Global                         `json:"-"`
+	RFC     *lint.RFC5280Config                  `json:"-"`
+	BR      lint.CABFBaselineRequirementsConfig  `json:"-"`
+	BRP     *lint.CABFBaselineRequirementsConfig `json:"-"`
 }
 
 var cfgSeen = map[string][]string{}
@@ -267,6 +274,7 @@ type mockSetup struct {
 	IneffNano int    `json:"ineff_nano,omitempty"`
 	Zone      int    `json:"zone_s,omitempty"`
 	BadConfig bool   `json:"bad_config,omitempty"` // ill-typed section for this (configurable) mock
+	BadShape  int    `json:"bad_shape,omitempty"`  // which ill-typed shape (0 scalar, 1 array, 2 array of tables, 3 wrong field type, 4 string)
 	// CfgVals, when set (configurable mocks, no BadConfig): a well-typed section with these values
 	CfgVals *mockCfg `json:"cfg_vals,omitempty"`
 }
@@ -341,7 +349,18 @@ func judge(rec *stats.Rec, c mockCase, prop string) (string, string) {
 		m.EffectiveDate = mkTime(ms.EffUnix, ms.EffNano, ms.Zone)
 		m.IneffectiveDate = mkTime(ms.IneffUnix, ms.IneffNano, -ms.Zone)
 		if ms.BadConfig && mi.Configurable {
-			cfgDoc += fmt.Sprintf("%s = 7\n", ms.Name)
+			switch ms.BadShape {
+			case 1:
+				cfgDoc += fmt.Sprintf("%s = [1, 2]\n", ms.Name)
+			case 2:
+				sections += fmt.Sprintf("[[%s]]\nLevel = 1\n", ms.Name)
+			case 3:
+				sections += fmt.Sprintf("[%s]\nLevel = \"high\"\n", ms.Name)
+			case 4:
+				cfgDoc += fmt.Sprintf("%s = \"on\"\n", ms.Name)
+			default:
+				cfgDoc += fmt.Sprintf("%s = 7\n", ms.Name)
+			}
 		} else if mi.Configurable && ms.CfgVals != nil {
 			ls := make([]string, len(ms.CfgVals.List))
 			for i, x := range ms.CfgVals.List {
@@ -409,7 +428,7 @@ func judge(rec *stats.Rec, c mockCase, prop string) (string, string) {
 	rs1, panicked1 := rs, panicked
 	// the same object again, through the same registry and configuration: a fresh instance, freshly
 	// configured - whatever the first instance did to its own configuration
-	if prop == "C04" && panicked1 == "" {
+	if (prop == "C04" || prop == "C11") && panicked1 == "" {
 		mu.Lock()
 		calls = nil
 		cfgSeen = map[string][]string{}
@@ -505,7 +524,7 @@ func judge(rec *stats.Rec, c mockCase, prop string) (string, string) {
 	}
 	rs, panicked = rs1, panicked1
 	// what each configurable mock saw must be what the document says
-	if prop == "C04" {
+	if prop == "C04" || prop == "C11" {
 		for _, ms := range c.Mocks {
 			mi := byName(ms.Name)
 			if mi == nil || !mi.Configurable || ms.BadConfig || len(seen1[ms.Name]) == 0 {
@@ -636,6 +655,15 @@ func judge(rec *stats.Rec, c mockCase, prop string) (string, string) {
 			}
 		}
 		executed := len(got) > 0 && got[len(got)-1] == "Execute"
+		if prop == "C11" {
+			// a section that cannot be applied touches exactly its lint; every other lint is what it is without it
+			if r.Status != ws {
+				return "config-locality|" + string(c.Kind) + "|" + ws.String(), fmt.Sprintf("%s: status %s, predicted %s (configurable=%v bad section=%v; document:\n%s)", ms.Name, r.Status, ws, mi.Configurable, ms.BadConfig, cfgDoc+sections)
+			}
+			if ws == lint.Fatal && mi.Configurable && ms.BadConfig && ms.Script.PanicAt != "new" && ms.Script.PanicAt != "Configure" && (strings.Contains(r.Details, model.PanicMarker) || !strings.Contains(r.Details, ms.Name)) {
+				return "config-error-message", "the section that cannot be applied is not reported as a configuration error naming the lint: " + r.Details
+			}
+		}
 		if prop == "C03" || prop == "C04" {
 			if !inWindow && (executed || r.Status == lint.Pass || r.Status == lint.Notice || r.Status == lint.Warn || r.Status == lint.Error) {
 				return "outside-window|" + string(c.Kind), fmt.Sprintf("%s: object dated %s outside [%s, %s): status %s, body executed=%v", ms.Name, date.UTC().Format(time.RFC3339Nano), fmtT(m.EffectiveDate), fmtT(m.IneffectiveDate), r.Status, executed)
@@ -797,6 +825,9 @@ func TestMock(t *testing.T) {
 				}
 				ms.Script.Details = rapid.SampledFrom([]string{"", "details", "x\xffy", "'" + mi.Name + "' panicked. Error: no", " "}).Draw(rt, "details")
 				ms.BadConfig = mi.Configurable && rapid.IntRange(0, 5).Draw(rt, "badcfg") == 0
+				if ms.BadConfig && prop == "C11" {
+					ms.BadShape = rapid.IntRange(0, 4).Draw(rt, "badshape")
+				}
 				if mi.Configurable && !ms.BadConfig && rapid.Bool().Draw(rt, "cfgvals") {
 					ms.CfgVals = &mockCfg{Level: rapid.IntRange(-3, 9).Draw(rt, "level"),
 						List: rapid.SliceOfN(rapid.SampledFrom([]string{"a", "b", "c", "allow", "deny", ""}), 0, 4).Draw(rt, "list"),
